@@ -727,7 +727,9 @@ func TestCheck(t *testing.T) {
 
 	// single-case replay
 	if p := runner.ReplayPath(); p != "" {
-		replayOne(r, fx, p)
+		if !replaySeq(r, fx, p) { // seq_test.go: replay files of the sequence part
+			replayOne(r, fx, p)
+		}
 		r.Finish()
 	}
 
@@ -1048,6 +1050,9 @@ func TestCheck(t *testing.T) {
 		sort.Strings(classes[c])
 	}
 	r.Set("audit_result_values", classes)
+
+	// --- call sequences on one long-lived server with an enumerated audit sink (seq_test.go)
+	seqPart(r, fx, deadline)
 
 	// --- vacuity: every tool ran at least once, every mutating tool showed its effect at least once
 	if r.Violations() == 0 && !stopped {
